@@ -65,6 +65,16 @@ theorem any_roundtrip_ws (e : BEnv) (Γ : Ctx) (cfg : ParserConfig) (isDt : Str 
     ∃ t', wildRoundtrip1 e Γ cfg isDt var t = .ok t' ∧ wsEq e.py t' t :=
   ⟨_, any_roundtrip e Γ cfg isDt var t hw hok htl, normTree_idem e.py [] t⟩
 
+/-- the same for the abstract writer that also allocates prefixes for the Clark-name strings which
+`add_attribute` turns into QNames (`eventsTreeQ`, the repair of `collectUris` requested for
+`Bind/Write.lean` and used by the op `c11.roundtrip`): on `treeOK` content both writers agree -/
+theorem any_roundtrip_q (e : BEnv) (Γ : Ctx) (cfg : ParserConfig) (isDt : Str → Bool) (var : XmlVar) (t : Tree)
+    (hw : var.isWildcard = true) (hok : treeOK isDt t = true) (htl : rootTailBlank e.py t = true) :
+    (do let v ← wildValue e Γ cfg var t
+        let evs ← genAnyType e Γ {} (depthTree t + 1) v var none
+        eventsTreeQ isDt evs) = .ok (normTree e.py [] t) :=
+  wildRoundtrip1Q_eq e Γ cfg isDt var t hw hok htl
+
 /-- `≈ws` changes nothing but insignificant whitespace: the normal form is idempotent -/
 theorem norm_idempotent (e : Env) (m : NsMap) (t : Tree) : normTree e m (normTree e m t) = normTree e m t :=
   normTree_idem e m t
